@@ -18,12 +18,14 @@ inductive PEff where
   | writeHandle | readHandle                    -- the thread-handle cell of a sync waiter: `*waker.get() = Some(current())`, clone out of it
   | cloneWaker | wake                           -- the task waker of an async waiter
   | ptrWrite | ptrRead | ptrCopy                -- the payload slot (`KanalPtr`)
+  | storeWaker | storePtr                       -- `register_waker` (clone the task's waker into the signal), `set_ptr`
   | unknown (text : String)
   deriving DecidableEq, Repr, Inhabited
 
 inductive PAskB where
   | beforeDeadline      -- `Instant::now() < until`
   | parGt1 | parEq1     -- `get_parallelism() > 1`, `== 1`
+  | stdWillWake         -- `Waker::will_wake` (standard library) between the registered waker and the one supplied
   deriving DecidableEq, Repr, Inhabited
 
 /-- Protocol trees.  The word operated on is the signal's `state` (values 0 UNLOCKED, 1 TERMINATED, 2 LOCKED,
